@@ -50,7 +50,7 @@ pub async fn settle() -> u32 {
     let mut stable = 0;
     let mut rounds = 0;
     let mut last = io::activity() + crate::verif::probe::ticks();
-    while stable < 3 && rounds < 10_000 {
+    while stable < 3 && rounds < SETTLE_CAP {
         tokio::task::yield_now().await;
         rounds += 1;
         let now = io::activity() + crate::verif::probe::ticks();
@@ -61,7 +61,20 @@ pub async fn settle() -> u32 {
             last = now;
         }
     }
+    if rounds >= SETTLE_CAP {
+        // the endpoint never came to rest although virtual time stood still: it is spinning
+        SETTLE_EXHAUSTED.fetch_add(1, Ordering::Relaxed);
+        crate::verif::out::count("settle_exhausted", 1);
+    }
     rounds
+}
+
+const SETTLE_CAP: u32 = 4000;
+static SETTLE_EXHAUSTED: AtomicU64 = AtomicU64::new(0);
+
+/// number of times `settle` gave up because the endpoint kept running without any stimulus
+pub fn settle_exhausted() -> u64 {
+    SETTLE_EXHAUSTED.load(Ordering::Relaxed)
 }
 
 /// advance virtual time by `ms` (timers of the endpoint fire in order at their exact instants)
